@@ -9,10 +9,10 @@ for d in sorted(glob.glob(os.path.join(V, "seeded", "C*-*")), key=lambda s: (os.
 esc = lambda s: str(s).replace("|", "\\|").replace("\n", " ")
 caught = sum(1 for m in rows if str(m.get("first_attempt", "")).startswith("CAUGHT"))
 out = ["# Seeded breaking changes", "",
-       "Each directory holds an independently written change to openapi-python-client that breaks one property while compiling and passing the pinned suite (`patch.diff`), a demonstration that fails with the change and passes without it (`demo.py`), the author's notes (`notes.md`) and `meta.json` (what it needs in order to manifest, what was run, which check class catches it, and whether the checks had to be strengthened). Ids `-1..-3` are round 1, `-4..-6` round 2, `-7..-9` round 3, `-10..-12` round 4, `-13..-14` round 5, `-15..-16` round 6 (later authors were told the earlier mechanisms and asked for different ones). None of these changes is ever committed to /repo; `tools/tryseeded.sh <patch> <PROP> <budget> <seed>` runs a check against a scratch copy with the change applied, `tools/sweep_seeded.sh` does so for all of them. Two old patches (C03-3, C06-2) no longer apply to the current tree because later `fix:` commits rewrote the lines they touch.",
+       "Each directory holds an independently written change to openapi-python-client that breaks one property while compiling and passing the pinned suite (`patch.diff`), a demonstration that fails with the change and passes without it (`demo.py`), the author's notes (`notes.md`) and `meta.json` (what it needs in order to manifest, what was run, which check class catches it, and whether the checks had to be strengthened). Ids `-1..-3` are round 1, `-4..-6` round 2, `-7..-9` round 3, `-10..-12` round 4, `-13..-14` round 5, `-15..-16` round 6, `-17` round 7 (later authors were told the earlier mechanisms and asked for different ones). None of these changes is ever committed to /repo; `tools/tryseeded.sh <patch> <PROP> <budget> <seed>` runs a check against a scratch copy with the change applied, `tools/sweep_seeded.sh` does so for all of them. Two old patches (C03-3, C06-2) no longer apply to the current tree because later `fix:` commits rewrote the lines they touch.",
        "", "| id | breaks | needs | first attempt | caught by |", "|----|--------|-------|---------------|-----------|"]
 for m in rows:
     out.append(f"| {m['id']} | {esc(m.get('breaks'))} | {esc(m.get('needs'))} | {esc(m.get('first_attempt'))} | {esc(m.get('caught_by'))} |")
-out += ["", f"{len(rows)} changes in six rounds; {caught} were caught by the checks as they stood when the change arrived, {len(rows) - caught} were missed at first and led to the strengthening recorded in each meta.json. Nearly every miss was a WORKLOAD dimension that did not exist yet (the trigger the change needs was never generated), not an oracle that looked away. All but one are caught now (C12-15, an address-reuse dependence, is only ever seen as a non-reproducing difference; C06-7 by C08, whose oracle owns that clause; C08-11 by C08 and C19); the unchanged tree still passes every check.", ""]
+out += ["", f"{len(rows)} changes in seven rounds; {caught} were caught by the checks as they stood when the change arrived, {len(rows) - caught} were missed at first and led to the strengthening recorded in each meta.json. Nearly every miss was a WORKLOAD dimension that did not exist yet (the trigger the change needs was never generated), not an oracle that looked away. All but one are caught now (C12-15, an address-reuse dependence, is only ever seen as a non-reproducing difference; C06-7 by C08, whose oracle owns that clause; C08-11 by C08 and C19); the unchanged tree still passes every check.", ""]
 open(os.path.join(V, "seeded", "README.md"), "w").write("\n".join(out))
 print(len(rows), caught)
